@@ -238,6 +238,7 @@ func init() {
 		ruleResultAlias(prog, rep, "jp")
 		ruleOperandSet(prog, rep, 10, "jp")
 		ruleSliceArray(prog, rep, 50, "jp")
+		ruleIndexSync(prog, rep, 5, "jp")
 		ruleCarry(prog, rep, 100, nil, "jp") // what a filter operand is evaluated against is chosen per operand
 		ruleFullRange(prog, rep, 3, "jp")
 		ruleArgConsist(prog, rep, 20, "jp")
@@ -258,6 +259,7 @@ func init() {
 		ruleFullRange(prog, rep, 3, "jp")
 		ruleCarry(prog, rep, 100, nil, "jp")
 		ruleSliceArray(prog, rep, 50, "jp")
+		ruleIndexSync(prog, rep, 5, "jp")
 		ruleArgConsist(prog, rep, 20, "jp") // the copies of one evaluator for the container types call their helpers with the same arguments
 	}
 	rules["C13"] = func(prog *Program, rep *Report) {
@@ -276,6 +278,7 @@ func init() {
 		ruleIndexLE(prog, rep, "jp")
 		ruleFullRange(prog, rep, 3, "jp")
 		ruleArgConsist(prog, rep, 20, "jp")
+		ruleIndexSync(prog, rep, 5, "jp")
 		ruleFlagConsist(prog, rep, 1, "jp") // the *One entries hand "stop after the first change" to the shared worker in every branch
 	}
 }
